@@ -163,7 +163,13 @@ def run_check(pid, tier, seed, t0):
             for f in b.get("failures", []):
                 bfail.append((b, f))
     # ------------------------------------------------------------ violations
-    os.makedirs(os.path.join(VERIF, "replays", pid), exist_ok=True)
+    rdir = os.path.join(VERIF, "replays", pid)
+    os.makedirs(rdir, exist_ok=True)
+    for old in os.listdir(rdir):          # replay files of earlier runs
+        try:
+            os.unlink(os.path.join(rdir, old))
+        except OSError:
+            pass
     lines = []
     nviol = 0
     known_hit = set()
